@@ -198,17 +198,21 @@ FetchParent(F, v) ==
 RECURSIVE RootVia(_, _, _)
 RootVia(F, v, fuel) == LET p == FetchParent(F, v) IN IF Len(p) = 0 \/ fuel = 0 THEN v ELSE RootVia(F, p[1], fuel - 1)
 
-\* find_attribute (used by @AT_x and ?AT_x): depth first
-RECURSIVE FindAttr(_, _, _, _)
-FindAttr(F, d, n, fuel) ==
-    LET own == SelectSeq(Die(F, d).attrs, LAMBDA a: a.n = n) IN
-    IF Len(own) > 0 THEN <<[a |-> own[1], of |-> d]>>
-    ELSE IF fuel = 0 \/ ~Integrable([n |-> n]) THEN <<>>
-    ELSE LET first == IF PinnedFind THEN "spec" ELSE "orig"
-             second == IF PinnedFind THEN "orig" ELSE "spec"
-             r1 == IF RefAttr(F, d, first) # 0 THEN FindAttr(F, RefAttr(F, d, first), n, fuel - 1) ELSE <<>>
-         IN IF Len(r1) > 0 THEN r1
-            ELSE IF RefAttr(F, d, second) # 0 THEN FindAttr(F, RefAttr(F, d, second), n, fuel - 1) ELSE <<>>
+\* find_attribute (used by @AT_x and ?AT_x): depth first; `vis': the DIEs already looked at on this search
+\* (the guard against references that lead back -- malformed DWARF -- added with fix 4)
+RECURSIVE FindAttrV(_, _, _, _)
+FindAttrV(F, d, n, vis) ==
+    IF d \in vis THEN [r |-> <<>>, vis |-> vis]
+    ELSE LET own == SelectSeq(Die(F, d).attrs, LAMBDA a: a.n = n)
+             v1 == vis \cup {d}
+         IN IF Len(own) > 0 THEN [r |-> <<[a |-> own[1], of |-> d]>>, vis |-> v1]
+            ELSE IF ~Integrable([n |-> n]) THEN [r |-> <<>>, vis |-> v1]
+            ELSE LET first == IF PinnedFind THEN "spec" ELSE "orig"
+                     second == IF PinnedFind THEN "orig" ELSE "spec"
+                     r1 == IF RefAttr(F, d, first) # 0 THEN FindAttrV(F, RefAttr(F, d, first), n, v1) ELSE [r |-> <<>>, vis |-> v1]
+                 IN IF Len(r1.r) > 0 THEN r1
+                    ELSE IF RefAttr(F, d, second) # 0 THEN FindAttrV(F, RefAttr(F, d, second), n, r1.vis) ELSE r1
+FindAttr(F, d, n, fuel) == FindAttrV(F, d, n, {}).r
 
 -----------------------------------------------------------------------------
 (* properties of one forest *)
